@@ -244,7 +244,7 @@ def run(ctx):
                    'doctor --json as the report of the declared roots']
     ctx.assumptions = ['target roots and their ancestors contain no symlinks', 'HOME and the project root are non-empty absolute paths (env_ok)',
                        'file names returned by the file system are non-empty, contain no "/" and are not "." or ".." (cfg_ok)']
-    ctx.proof_phase(extra_targets=['Corr/Check_C03.vo'])
+    ctx.proof_phase(extra_targets=['Corr/Check_C03.vo', 'Corr/Check_Deploy.vo'])
     docopts = R.doc_options()
     rng = ctx.rng
     if ctx.replay:
@@ -262,6 +262,9 @@ def run(ctx):
             for c in ctx.corr('hostile_ids', HEADER, 'check_hostile_full', 'case03', [(term, rep)]):
                 ctx.violation('model and implementation disagree on desired files / roots / manifest entries', c, no_input=True)
         return
+    # ---- histories in which the roots move between deploys (deploy side: deletes come from records)
+    from vlib import deploysim as ds
+    ds.run_cli_stream(ctx, 10 if quick else 150, 4, props={'C03'}, stream='moved_roots', script=ds.script_moved_roots, setup=ds.setup_moved_roots)
     # ---- corpus first
     for name, case, expect in corpus_cases():
         out = run_case((case, None))
